@@ -129,6 +129,11 @@ HItems(hk, hv) == H("items", "ItemsView", <<hk, hv>>, <<>>)
 \* user generics: GL = class GL(list[T]) subscripted GL[h] (class test + pseudo-superclass list[h]);
 \* G = class G(Generic[T]) subscripted G[h] (class test only: the parameter cannot be verified)
 HGen(s, h)    == H("gen", s, <<h>>, <<>>)
+\* PEP 695 recursive alias   type R = list[R | h] :  lists of (h or R) to any depth.  beartype unrolls it one
+\* layer and must then IGNORE what it cannot express: RecExp(h) = list[list | h]  (redpep695.py).  The spec
+\* mutant rec_drop_marker drops the recursive member instead (list[list[h] | h]: beartype 0.23.0).
+HRec(h)       == H("rec", "list", <<h>>, <<>>)
+RecExp(h)     == HSeq("list", HUnion(<<IF Mut = "rec_drop_marker" THEN HSeq("list", h.a[1]) ELSE HCls("list"), h.a[1]>>))
 HAnn(h, vs)   == H("ann", "", <<h>>, vs)                 \* Annotated[h, V1, ..., Vn], Vi beartype validators
 
 (* --------------------------------------------------------------- validators *)
@@ -208,6 +213,8 @@ Sat(h, x) ==
                              p.k = "cont" /\ p.cls = "tuple" /\ Len(p.items) = 2
                              /\ Sat(h.a[1], p.items[1]) /\ Sat(h.a[2], p.items[2])
     [] h.k = "gen"  -> InstOf(x, h.s) /\ (h.s # "GL" \/ Sat(HSeq("list", h.a[1]), x))
+    [] h.k = "rec"  -> /\ InstOf(x, "list")              \* the published meaning is truly recursive
+                       /\ \A i \in 1..LenOf(x) : Sat(h, ItemsOf(x)[i]) \/ Sat(h.a[1], ItemsOf(x)[i])
     [] h.k = "ann"  -> Sat(h.a[1], x) /\ \A i \in DOMAIN h.m : ValSem(h.m[i], x)
 
 \* beartype's documented full-depth meaning: as Sat, but Literal is "instance of a member's
@@ -229,6 +236,8 @@ SatB(h, x) ==
                              p.k = "cont" /\ p.cls = "tuple" /\ Len(p.items) = 2
                              /\ SatB(h.a[1], p.items[1]) /\ SatB(h.a[2], p.items[2])
     [] h.k = "gen"  -> InstOf(x, h.s) /\ (h.s # "GL" \/ SatB(HSeq("list", h.a[1]), x))
+    [] h.k = "rec"  -> /\ InstOf(x, "list")
+                       /\ \A i \in 1..LenOf(x) : SatB(h, ItemsOf(x)[i]) \/ SatB(h.a[1], ItemsOf(x)[i])
     [] h.k = "ann"  -> SatB(h.a[1], x) /\ \A i \in DOMAIN h.m : ValSem(h.m[i], x)
     [] OTHER -> Sat(h, x)
 
@@ -258,6 +267,7 @@ MustReject(h, x) ==
                         \/ (Len(x.items) > 0 /\ \A i \in DOMAIN x.items :
                               MustReject(HTupF(h.a), x.items[i]))
     [] h.k = "gen"  -> ~InstOf(x, h.s) \/ (h.s = "GL" /\ MustReject(HSeq("list", h.a[1]), x))
+    [] h.k = "rec"  -> MustReject(HSeq("list", HUnion(<<HCls("list"), h.a[1]>>)), x)   \* guaranteed only for the unrolled layer
     [] h.k = "ann"  -> MustReject(h.a[1], x) \/ \E i \in DOMAIN h.m : ~ValSem(h.m[i], x)
 
 (* ------------------ an accepted object has >= 1 consistent item per container level *)
@@ -277,6 +287,7 @@ Weak(h, x) ==
     [] h.k = "items" -> /\ InstOf(x, "ItemsView")
                         /\ (Len(x.items) = 0 \/ \E i \in DOMAIN x.items : Weak(HTupF(h.a), x.items[i]))
     [] h.k = "gen"  -> InstOf(x, h.s) /\ (h.s # "GL" \/ Weak(HSeq("list", h.a[1]), x))
+    [] h.k = "rec"  -> Weak(HSeq("list", HUnion(<<HCls("list"), h.a[1]>>)), x)
     [] h.k = "ann"  -> Weak(h.a[1], x) /\ \A i \in DOMAIN h.m : ValSem(h.m[i], x)
     [] OTHER -> SatB(h, x)
 
@@ -360,6 +371,7 @@ ChkR(h, x, r, conf) ==
     [] h.k = "items" ->
          /\ InstOf(x, "ItemsView")
          /\ (Len(x.items) = 0 \/ ChkR(HTupF(h.a), x.items[1], r, conf))
+    [] h.k = "rec"  -> ChkR(RecExp(h), x, r, conf)
     [] h.k = "gen"  ->          \* isinstance(x, G) and <check of every unerased pseudo-superclass>
          /\ InstOf(x, h.s)
          /\ (h.s # "GL" \/ ChkR(HSeq("list", h.a[1]), x, r, conf))
@@ -419,6 +431,7 @@ Ev(h, x, r, conf) ==
          IF ~InstOf(x, "ItemsView") THEN ENo(FALSE)
          ELSE IF Len(x.items) = 0 THEN E(TRUE, 0, 1, 0, 0)
          ELSE EPlus(E(TRUE, 1, 1, 1, 0), Ev(HTupF(h.a), x.items[1], r, conf))
+    [] h.k = "rec" -> Ev(RecExp(h), x, r, conf)
     [] h.k = "gen" ->        \* user generic: class test, then the unerased pseudo-superclass list[T] (GL) / nothing (G)
          IF ~InstOf(x, h.s) THEN ENo(FALSE)
          ELSE IF h.s = "GL" THEN Ev(HSeq("list", h.a[1]), x, r, conf) ELSE ENo(TRUE)
@@ -449,6 +462,7 @@ ReadBound(h) ==
     [] h.k = "union" -> SumBound(h.a)
     [] h.k = "ann"   -> ReadBound(h.a[1])
     [] h.k = "gen"   -> IF h.s = "GL" THEN 1 + ReadBound(h.a[1]) ELSE 0
+    [] h.k = "rec"   -> 2 + 2 * ReadBound(h.a[1])
     [] OTHER -> 0
 RECURSIVE Nodes(_), SumNodes(_)
 SumNodes(hs) == IF hs = <<>> THEN 0 ELSE Nodes(Head(hs)) + SumNodes(Tail(hs))
